@@ -50,6 +50,207 @@ func fnValidate() *run.Fn {
 	}}
 }
 
+// ---- the list API (entry "ListAltitudekeys"): transform.ConvertExtendedSpatialIDsToQuadkeysAndAltitudekeys projected to the altitude keys ----
+// arguments [ids = [[hZoom x y vZoom f] ...], qZoom, kZoom, E, O]; every ID is issued at hZoom = qZoom (one quadkey per ID).
+// observed: the groups in order as [label, keys], label = position of the first input ID whose tile has the group's quadkey.
+// The API enumerates every key of every range, so the invoker refuses (marker "oversize", confirmed by the dispatch entry) calls outside
+// E 0..35, |O| <= 2^27, more than 64 IDs or an estimated total of more than 2048 keys.
+func listEst(kz, E int64, id []int64) int64 {
+	v := id[3]
+	if v < 0 || v > 35 || kz < 0 || kz > 35 {
+		return 0
+	}
+	sh := (25 - v) - (E - kz)
+	if sh < 0 {
+		sh = 0
+	}
+	if sh > 40 {
+		return 1 << 41
+	}
+	return int64(1)<<uint(sh) + 2
+}
+func listRefused(ids [][]int64, kz, E, O int64) bool {
+	if E < 0 || E > 35 || O > 1<<27 || O < -(1<<27) || len(ids) > 64 {
+		return true
+	}
+	var sum int64
+	for _, id := range ids {
+		sum += listEst(kz, E, id)
+		if sum > 2048 {
+			return true
+		}
+	}
+	return false
+}
+func fnList() *run.Fn {
+	return &run.Fn{Name: "ListAltitudekeys", Invoke: func(a []w.Val) w.Val {
+		idvs, ok := a[0].(w.List)
+		if !ok {
+			return w.Nil{}
+		}
+		qz, kz, E, O := w.AsInt(a[1]), w.AsInt(a[2]), w.AsInt(a[3]), w.AsInt(a[4])
+		ids := make([][]int64, len(idvs))
+		for i, v := range idvs {
+			l, ok := v.(w.List)
+			if !ok || len(l) != 5 {
+				return w.Nil{}
+			}
+			ids[i] = make([]int64, 5)
+			for k, e := range l {
+				n, ok := e.(w.Int)
+				if !ok || !n.V.IsInt64() {
+					return w.Nil{}
+				}
+				ids[i][k] = n.V.Int64()
+			}
+		}
+		if listRefused(ids, kz, E, O) {
+			return w.S("oversize")
+		}
+		strs := make([]string, len(ids))
+		qks := make([]int64, len(ids))
+		for i, id := range ids {
+			strs[i] = EID(id[0], id[1], id[2], id[3], id[4])
+			qks[i] = -1
+			if id[0] >= 0 && id[0] <= 31 {
+				qks[i] = transform.VerifConvertHorizontalIDToQuadkey(Tag("%d/%d/%d", id[0], id[1], id[2]))
+			}
+		}
+		out, err := transform.ConvertExtendedSpatialIDsToQuadkeysAndAltitudekeys(strs, qz, kz, E, O)
+		if err != nil {
+			return w.Err{V: w.Nil{}}
+		}
+		gs := make(w.List, 0, len(out))
+		for _, g := range out {
+			inner := g.InnerIDList()
+			label := int64(-1)
+			keys := make(w.List, 0, len(inner))
+			for k, p := range inner {
+				if k > 0 && p[0] != inner[0][0] {
+					label = -2 // more than one quadkey in a group: impossible at hZoom = qZoom
+				}
+				keys = append(keys, w.I(p[1]))
+			}
+			if label == -1 && len(inner) > 0 {
+				for j, q := range qks {
+					if q == inner[0][0] && ids[j][0] == qz {
+						label = int64(j)
+						break
+					}
+				}
+			}
+			gs = append(gs, w.L(w.I(label), keys))
+		}
+		return gs
+	}}
+}
+
+// generator of list cases: IDs sharing the vertical index f (both signs) at different vertical zooms, on the same tile and on different tiles;
+// an ID whose f does not exist at its zoom after valid ones; repeated IDs; overlapping ranges on one tile; bad zooms
+func genList(r *run.Runner, g *Gen) {
+	for try := 0; try < 8; try++ {
+		qz := 1 + g.Int63n(6)
+		if g.Chance(0.2) {
+			qz = g.Pick(1, 2, 12, 20, 25, 31)
+		}
+		va := 16 + g.Int63n(13)
+		E := 14 + g.Int63n(17)
+		c := (25 - va) - g.Int63n(4)
+		kz := E - c
+		if kz < 0 {
+			kz = 0
+		}
+		if kz > 35 {
+			kz = 35
+		}
+		O := g.Pick(0, 0, 3, 13, 1025, 4096, 4097, 1<<16, 1<<20, (1<<20)+1, 1<<24, (1<<24)-1, -1, -5, 1<<27)
+		tile := func() (int64, int64) { return g.Int63n(pow2(qz)), g.Int63n(pow2(qz)) }
+		zoomNear := func() int64 {
+			v := va + g.Int63n(5)
+			if v > 35 {
+				v = 35
+			}
+			return v
+		}
+		fSmall := func() int64 { return g.Pick(0, 1, -1, 2, -2, 3, -3, 5, 7, -8, g.Int63n(33)-16) }
+		var ids [][]int64
+		shape := ""
+		x0, y0 := tile()
+		switch g.Intn(8) {
+		case 0, 1: // the same f at different vertical zooms on ONE tile
+			shape = "same-f-same-tile"
+			f := fSmall()
+			for k := 0; k < 2+g.Intn(3); k++ {
+				ids = append(ids, []int64{qz, x0, y0, zoomNear(), f})
+			}
+		case 2, 3: // the same f at different vertical zooms on different tiles
+			shape = "same-f-other-tiles"
+			f := fSmall()
+			for k := 0; k < 2+g.Intn(3); k++ {
+				x, y := tile()
+				ids = append(ids, []int64{qz, x, y, zoomNear(), f})
+			}
+		case 4: // a valid ID, then the same f at a zoom where it does not exist: the call must fail
+			shape = "invalid-after-valid"
+			v1 := 2 + g.Int63n(5)
+			f := g.Pick(pow2(v1)-1, -pow2(v1), pow2(v1-1), 3)
+			v2 := g.Int63n(v1)
+			for pow2(v2) > f && -pow2(v2) <= f && v2 > 0 {
+				v2--
+			}
+			x, y := tile()
+			ids = [][]int64{{qz, x0, y0, v1, f}, {qz, x, y, v2, f}}
+			if g.Chance(0.5) {
+				ids[1][1], ids[1][2] = x0, y0
+			}
+			// coarse voxels: wide key cells so that the ranges stay short
+			E = 5 + g.Int63n(20)
+			kz = g.Int63n(4)
+			O = g.Pick(0, 1<<24, 1<<27, 1<<26)
+		case 5: // repeats and overlapping ranges on one tile, other f
+			shape = "overlap-same-tile"
+			f := fSmall()
+			v := zoomNear()
+			ids = [][]int64{{qz, x0, y0, v, f}, {qz, x0, y0, v, f}, {qz, x0, y0, v, f + 1}, {qz, x0, y0, clampZoom(v - 1), ashift(f, -1)}, {qz, x0, y0, clampZoom(v + 1), 2 * f}}
+		case 6: // mixed
+			shape = "mixed"
+			for k := 0; k < 1+g.Intn(6); k++ {
+				x, y := tile()
+				if g.Chance(0.4) {
+					x, y = x0, y0
+				}
+				ids = append(ids, []int64{qz, x, y, zoomNear(), fSmall()})
+			}
+		default: // zoom errors: quadkey zoom 0 / 32, key zoom 36, a vertical or horizontal zoom of 36 in the list
+			shape = "bad-zoom"
+			f := fSmall()
+			ids = [][]int64{{qz, x0, y0, zoomNear(), f}, {qz, x0, y0, zoomNear(), f}}
+			switch g.Intn(4) {
+			case 0:
+				qz = g.Pick(0, 32, -1)
+				ids[0][0], ids[1][0] = qz, qz
+				ids[0][1], ids[0][2], ids[1][1], ids[1][2] = 0, 0, 0, 0
+			case 1:
+				kz = g.Pick(36, -1)
+			case 2:
+				ids[1][3] = g.Pick(36, -1)
+			default:
+				ids[1][0] = g.Pick(36, -1)
+			}
+		}
+		if listRefused(ids, kz, E, O) {
+			continue
+		}
+		idv := make(w.List, len(ids))
+		for i, id := range ids {
+			idv[i] = w.List(vals(id))
+		}
+		r.Run(run.Case{Prop: "C12", Fn: "ListAltitudekeys", Args: []w.Val{idv, w.I(qz), w.I(kz), w.I(E), w.I(O)},
+			Tags: []string{"list", "list:" + shape, Tag("ids=%d", len(ids))}})
+		return
+	}
+}
+
 // ---- call histories (entry "CallSequence") ----
 // A step is [name, arg...] with name one of the four plain entries. The invoker first issues one fixed, unrelated call of each function
 // (so a replay in a fresh process and every shrinker candidate start from the same library state), then the steps back to back, and
@@ -730,6 +931,16 @@ func win(out *[]int64, lo, hi int64) {
 		*out = append(*out, v)
 	}
 }
+var fixedLists = []struct {
+	ids           [][]int64
+	qz, kz, E, O int64
+}{
+	{[][]int64{{3, 1, 2, 24, 5}, {3, 1, 2, 22, 5}}, 3, 23, 25, 0},                 // same f, same tile, other vertical zoom
+	{[][]int64{{3, 1, 2, 24, -3}, {3, 4, 5, 26, -3}, {3, 1, 2, 23, -3}}, 3, 24, 25, 1 << 24}, // same f (negative), two tiles
+	{[][]int64{{2, 0, 0, 3, 3}, {2, 1, 1, 1, 3}}, 2, 2, 24, 0},                     // f = 3 does not exist at vertical zoom 1: error
+	{[][]int64{{2, 0, 0, 3, 3}, {2, 0, 0, 3, 3}, {2, 0, 0, 3, 2}}, 2, 4, 24, 1 << 24},
+}
+
 func exhaustive(r *run.Runner) {
 	for z := int64(23); z <= 27; z++ {
 		for out := int64(23); out <= 27; out++ {
@@ -762,7 +973,7 @@ func init() {
 	Scale["C12"] = 50000
 	Registry["C12"] = func(r *run.Runner, g *Gen, n int) {
 		r.Register(fnZ2K(), fnK2Z(), fnMin(), fnValidate(),
-			fnRoundTrip("RoundTripZ", z2k, k2z), fnRoundTrip("RoundTripK", k2z, z2k), fnSequence())
+			fnRoundTrip("RoundTripZ", z2k, k2z), fnRoundTrip("RoundTripK", k2z, z2k), fnSequence(), fnList())
 		if n == 0 {
 			return
 		}
@@ -774,6 +985,13 @@ func init() {
 		for _, a := range fixedBackward {
 			emit(r, "ConvertAltitudekeyToMinMaxZ", a, []string{"fixed"})
 			emit(r, "RoundTripK", a, []string{"fixed", "roundtrip"})
+		}
+		for _, lc := range fixedLists {
+			idv := make(w.List, len(lc.ids))
+			for i, id := range lc.ids {
+				idv[i] = w.List(vals(id))
+			}
+			r.Run(run.Case{Prop: "C12", Fn: "ListAltitudekeys", Args: []w.Val{idv, w.I(lc.qz), w.I(lc.kz), w.I(lc.E), w.I(lc.O)}, Tags: []string{"fixed", "list"}})
 		}
 		if g.Tier == "thorough" {
 			exhaustive(r)
@@ -788,6 +1006,11 @@ func init() {
 			// ~12 %: a history of related calls carried by one case (entry CallSequence)
 			if seqP > 0 && g.Chance(seqP) {
 				genSequence(r, g)
+				continue
+			}
+			// ~6 %: the list API (several IDs in one call)
+			if g.Chance(0.06) {
+				genList(r, g)
 				continue
 			}
 			var a []int64
